@@ -51,7 +51,20 @@ def build(seed, prop):
             elif rng.random() < 0.1:
                 t = rng.choice(asserted)       # redundant duplicate under another name
                 out.append({"k": "assert", "term": T("!", (t,), "Bool", g.tg.fresh_name())})
-    return cmds + gen.dedup_asserts(out, rng)
+    out = gen.dedup_asserts(out, rng)
+    # "a popped assertion leaves no trace" template: t is asserted and checked in a level that is popped; then t (or a variant
+    # with the same internal form) is asserted again under a fresh name together with its negation: the core must name both
+    if rng.random() < 0.35:
+        t = strip_named(g.assertion(depth=rng.choice([1, 2]))["term"])
+        t2 = t if rng.random() < 0.5 else g.variant(t)
+        n1, n2, n3 = g.tg.fresh_name(), g.tg.fresh_name(), g.tg.fresh_name()
+        # in a level of its own at the start of the script, so that nothing else is on the stack
+        out = [{"k": "push", "n": 1},
+               {"k": "push", "n": 1}, {"k": "assert", "term": T("!", (t,), "Bool", n1)}, {"k": "check-sat"}, {"k": "pop", "n": 1},
+               {"k": "assert", "term": T("!", (t2,), "Bool", n2)}, {"k": "assert", "term": T("!", (T("not", (t,)),), "Bool", n3)},
+               {"k": "check-sat"}, {"k": "get-unsat-core"},
+               {"k": "pop", "n": 1}] + out
+    return cmds + out
 
 
 def top_named(m):
@@ -145,15 +158,17 @@ def judge(cmds, prop, res=None):
                     if v == "sat":
                         # symptom: top operator of a named current assertion whose addition makes the core unsat
                         missing = "none"
+                        status = None
                         for n2, t2 in named:
                             if n2 not in names and decide(problem(cmds, m, terms + unnamed + [t2])) == "unsat":
                                 t3 = t2
                                 while t3.op == "not":
                                     t3 = t3.args[0]
                                 missing = t3.op if t3.op in gen_ops else ("var" if not t3.args else "app")
+                                status = term_dup_status(cmds, i, t2)     # judged on the assertion that is missing, not on the script
                                 break
                         bad.append((i, "core-satisfiable", "core %s together with the %d unnamed current assertions is satisfiable\n%s" % (
-                            names, len(unnamed), problem(cmds, m, terms + unnamed)), "missing-" + missing))
+                            names, len(unnamed), problem(cmds, m, terms + unnamed)), "missing-" + missing, status))
                     elif v == "inconclusive":
                         if res is not None:
                             res.inconclusive += 1
@@ -281,10 +296,51 @@ def dup_symptom(cmds, upto=None):
     return "nodup"
 
 
+def term_dup_status(cmds, upto, term):
+    """Like dup_symptom, but only for one assertion: is `term` equivalent to *another* assertion / named sub-term on the stack
+    at command #upto ('dup'), only to a popped one ('poppedeq'), or to none ('nodup')."""
+    levels = [[]]
+    popped = []
+    for idx, c in enumerate(cmds):
+        if upto is not None and idx > upto:
+            break
+        if c["k"] == "push":
+            for _ in range(c["n"]):
+                levels.append([])
+        elif c["k"] == "pop":
+            for _ in range(min(c["n"], len(levels) - 1)):
+                popped += levels.pop()
+        elif c["k"] == "assert":
+            levels[-1].append(to_smt(strip_named(c["term"]), "ref"))
+            for t in [strip_named(t) for _, t in names_in(c["term"])][1 if c["term"].op == "!" else 0:]:
+                levels[-1].append(to_smt(t, "ref"))
+    cur = [t for lv in levels for t in lv]
+    me = to_smt(strip_named(term), "ref")
+    if me in cur:
+        cur.remove(me)
+    decls = [gen.cmd_text(c, "ref") for c in sr.decls_of(cmds)] + \
+            [gen.cmd_text(c, "ref") for c in cmds if c["k"] == "define-fun"]
+
+    def eq_any(others):
+        if me in others:
+            return True
+        for o in list(dict.fromkeys(others))[:60]:
+            if refs.quick("\n".join(decls + ["(assert (not (= %s %s)))" % (me, o)])) == "unsat":
+                return True
+        return False
+    if eq_any(cur):
+        return "dup"
+    if eq_any(popped):
+        return "poppedeq"
+    return "nodup"
+
+
 def site_for(cls, cmds, b=None):
     if cls.startswith("core-refused"):
         return "any"
     upto = b[0] if b is not None and isinstance(b[0], int) else None
+    if b is not None and len(b) > 4 and b[4]:
+        return site_for_(cls, cmds) + ":" + b[4] + ":" + b[3]
     if b is not None and len(b) > 3:
         return site_for_(cls, cmds) + ":" + dup_symptom(cmds, upto) + ":" + b[3]
     if cls.startswith("core-satisfiable") or cls.startswith("core-reducible") or cls.startswith("core-name-not") \
